@@ -21,6 +21,27 @@ NEWTYPES = {'angle::Rad', 'angle::Deg'}
 DEC_FIELDS = ['scale', 'rot', 'disp']
 
 
+AP = {}
+
+
+def ap(path):
+    """the path under which a type of the table is actually defined (a type moved into a private submodule and re-exported
+    keeps its public name but not its definition path)"""
+    return AP.get(path, path)
+
+
+def resolve_adt(adts, path):
+    a = adts.get(path)
+    if a is None:
+        short = path.split('::')[-1]
+        top = path.split('::')[0]
+        c = [q for q in adts if q.split('::')[-1] == short and q.split('::')[0] == top]
+        if len(c) == 1:
+            AP[path] = c[0]
+            a = adts[c[0]]
+    return a
+
+
 def find_root(L, pred):
     return [k for k in L.roots if pred(k)]
 
@@ -40,7 +61,7 @@ def strval(v):
 def check_serialize(run, L, path, fields, inv_adt):
     """writer table of one type, read off the Serialize::serialize body itself - derived or hand-written alike"""
     short = path.split('::')[-1]
-    keys = find_root(L, lambda k: ('impl serde::Serialize for %s<' % path) in k and k.endswith('::serialize'))
+    keys = find_root(L, lambda k: ('impl serde::Serialize for %s<' % ap(path)) in k and k.endswith('::serialize'))
     key = '%s:ser:%s' % (PROP, 'Decomposed' if path == 'transform::Decomposed' else path)
     if not run.ob(key + ':present', len(keys) == 1, rule='K8 writer table', expected='one Serialize::serialize body', found=keys):
         return
@@ -103,16 +124,54 @@ def const_strs(L, v):
 
 def check_deserialize_header(run, L, path, fields):
     short = path.split('::')[-1]
-    keys = find_root(L, lambda k: ('for %s<' % path) in k and 'serde::Deserialize' in k and k.endswith('>::deserialize') and k.count('::deserialize') == 1)
+    keys = find_root(L, lambda k: ('for %s<' % ap(path)) in k and 'serde::Deserialize' in k and k.endswith('>::deserialize') and k.count('::deserialize') == 1)
     key = '%s:de:%s' % (PROP, 'Decomposed' if path == 'transform::Decomposed' else path)
     if not run.ob(key + ':present', len(keys) >= 1, rule='K8 reader table', expected='a Deserialize::deserialize body', found=keys):
         return
     r = L.roots[keys[0]]
     run.roots.add(keys[0])
     ls = [l for g_, l in ret_leaves(r['out']) if l['k'] == 'ret']
-    if not run.ob(key + ':analysable', len(ls) == 1, rule='analysable', expected='one Return', found=len(ls), where=r.get('span')):
+    if not run.ob(key + ':analysable', len(ls) in (1, 2) and len(ls) == len(ret_leaves(r['out'])), rule='analysable', expected='one Return, or Ok / Err of one deserializer call', found=len(ls), where=r.get('span')):
         return
     tr = ls[0]['trace']
+    if len(ls) == 2:
+        # `let proxy = Proxy::deserialize(d)?; Ok(Self { f: proxy.f, .. })`: both paths made the same single call; the Err path
+        # returns its error, the Ok path builds the value from the fields of the call's Ok payload - field i of the result from the
+        # payload field that carries the same NAME in the table handed to the deserializer
+        same = all(len(l['trace']) == 1 for l in ls) and ls[0]['trace'][0]['ret'] == ls[1]['trace'][0]['ret']
+        okl = [l for l in ls if l['v'].get('n') == 'Ok']
+        errl = [l for l in ls if l['v'].get('n') == 'Err']
+        good = same and len(okl) == 1 and len(errl) == 1
+        src = []
+        if good:
+            call = tr[0]['ret']
+
+            def payload_field(tid):
+                """proj(proj(variant(call, 0), 0), i) -> i"""
+                t = L.terms[tid]
+                if t[0] == 'a' and t[1] == 'proj' and L.terms[t[2][1]][0] == 'i':
+                    u = L.terms[t[2][0]]
+                    if u[0] == 'a' and u[1] == 'proj' and L.terms[u[2][1]] == ['i', '0']:
+                        w = L.terms[u[2][0]]
+                        if w[0] == 'a' and w[1] == 'variant' and w[2][0] == call and L.terms[w[2][1]] == ['i', '0']:
+                            return int(L.terms[t[2][1]][1])
+                return None
+            pv = okl[0]['v']['f'][0] if okl[0]['v'].get('f') else {}
+            src = [payload_field(x['t']) if 't' in x else None for x in pv.get('a', [])]
+            et = errl[0]['v']['f'][0] if errl[0]['v'].get('f') else {}
+            e_ok = False
+            if 't' in et:
+                t = L.terms[et['t']]
+                if t[0] == 'a' and t[1] == 'proj':
+                    w = L.terms[t[2][0]]
+                    e_ok = w[0] == 'a' and w[1] == 'variant' and w[2][0] == call and L.terms[w[2][1]] == ['i', '1']
+            good = e_ok and None not in src and len(src) == len(fields)
+        table = const_strs(L, tr[0]['args'][2]) if good and tr[0]['fn'].endswith('deserialize_struct') else []
+        named = [table[i] if i < len(table) else None for i in src] if good else []
+        run.ob(key + ':delegation', good and named == fields, rule='K8 reader table', expected='Err propagated; Ok(Self) with field i taken from the proxy field named %s' % fields,
+               found=named or 'not a plain delegation to one deserializer call', where=r.get('span'))
+        if not good:
+            return
     if path in NEWTYPES:
         ok = len(tr) == 1 and tr[0]['fn'].endswith('deserialize_newtype_struct') and strval(tr[0]['args'][1]) == short
         run.ob(key + ':newtype', ok, rule='K8 reader table', expected='deserialize_newtype_struct("%s", ..)' % short, found=[e['fn'].split('::')[-1] for e in tr], where=r.get('span'))
@@ -127,14 +186,14 @@ def check_derive_census(run, L, path):
     their effect is: the generated code then calls something that is neither serde's data model nor generated code.  Every
     function generated for this type (the `_::<impl serde::..>` block: impl methods, visitors, wrapper structs) may call only
     serde's traits; whatever it inlines must be generated code of the same block or core/std."""
-    roots = [k for k in L.roots if ('::_::<impl serde::Serialize for %s<' % path) in k or re.search(r"::_::<impl serde::Deserialize<'\w+> for %s<" % re.escape(path), k)]
+    roots = [k for k in L.roots if ('::_::<impl serde::Serialize for %s<' % ap(path)) in k or re.search(r"::_::<impl serde::Deserialize<'\w+> for %s<" % re.escape(ap(path)), k)]
     key = '%s:derive:%s:census' % (PROP, path)
     foreign = set()
     for k in roots:
         r = L.roots[k]
         run.roots.add(k)
         for f in r.get('uninterp', []):
-            if not (f.startswith('serde_core::') or f.startswith('serde::')):
+            if not f.startswith(('serde_core::', 'serde::', 'core::', 'std::', 'alloc::')):
                 foreign.add('calls ' + f)
         for f in r.get('inlined', []):
             nm = f.split(' @ ')[0]
@@ -147,13 +206,98 @@ def check_derive_census(run, L, path):
            found=sorted(foreign)[:4] or '%d generated functions' % len(roots))
 
 
+def _split_gargs(g):
+    """top-level comma split of a printed generic-argument list `[A, B<C, D>, ..]`"""
+    g = g.strip()
+    if g.startswith('[') and g.endswith(']'):
+        g = g[1:-1]
+    out, depth, cur = [], 0, ''
+    for ch in g:
+        if ch in '<([{':
+            depth += 1
+        elif ch in '>)]}':
+            depth -= 1
+        if ch == ',' and depth == 0:
+            out.append(cur.strip())
+            cur = ''
+        else:
+            cur += ch
+    if cur.strip():
+        out.append(cur.strip())
+    return out
+
+
+def _type_base(t):
+    """a printed type without parameter indices and without its own trailing generic arguments"""
+    t = re.sub(r'/#\d+', '', t).strip()
+    if t.endswith('>') and not t.startswith('<'):
+        depth = 0
+        for i in range(len(t) - 1, -1, -1):
+            if t[i] == '>':
+                depth += 1
+            elif t[i] == '<':
+                depth -= 1
+                if depth == 0:
+                    return t[:i]
+    return t
+
+
+def _impl_self(key, trait_marker):
+    """Self type of a root key `<Self as Trait<..>>::method`"""
+    if not key.startswith('<'):
+        return None
+    i = key.rfind(' as ' + trait_marker)
+    return _type_base(key[1:i]) if i > 0 else None
+
+
+def _calls(L, key, suffixes):
+    out = []
+    for g_, leaf in ret_leaves(L.roots[key]['out']):
+        for e in leaf.get('trace', []):
+            if any(e['fn'].endswith(s_) or s_ in e['fn'] for s_ in suffixes) and e not in out:
+                out.append(e)
+    return out
+
+
+def reader_chain(L, path):
+    """The hand-written reader of `path`, followed through the types the code itself names, wherever the impls live:
+    Deserialize::deserialize -> deserialize_struct / deserialize_newtype_struct::<V> -> V's Visitor methods;
+    visit_map -> next_key::<F> -> F's Deserialize -> deserialize_identifier / _str / _any::<FV> -> FV::visit_str."""
+    out = {}
+    des = find_root(L, lambda k: ('for %s<' % ap(path)) in k and 'serde::Deserialize' in k and k.endswith('>::deserialize') and k.count('::deserialize') == 1)
+    if len(des) != 1:
+        return out
+    vis = set()
+    for e in _calls(L, des[0], ['Deserializer::deserialize_']):
+        ga = _split_gargs(e['gargs'])
+        if ga:
+            vis.add(_type_base(ga[-1]))
+    for m in ('visit_map', 'visit_newtype_struct', 'visit_seq'):
+        ks = [k for k in L.roots if k.endswith('::' + m) and 'serde::de::Visitor' in k and _impl_self(k, 'serde::de::Visitor') in vis]
+        if ks:
+            out[m] = ks
+    fields = set()
+    for k in out.get('visit_map', []):
+        for e in _calls(L, k, ['MapAccess::next_key']):
+            ga = _split_gargs(e['gargs'])
+            if ga:
+                fields.add(_type_base(ga[-1]))
+    fvis = set()
+    for k in L.roots:
+        if k.endswith('::deserialize') and _impl_self(k, 'serde::Deserialize') in fields:
+            for e in _calls(L, k, ['Deserializer::deserialize_']):
+                ga = _split_gargs(e['gargs'])
+                if ga:
+                    fvis.add(_type_base(ga[-1]))
+    ks = [k for k in L.roots if k.endswith('::visit_str') and 'serde::de::Visitor' in k and _impl_self(k, 'serde::de::Visitor') in fvis]
+    if ks:
+        out['visit_str'] = ks
+    return out
+
+
 def reader_roots(L, path, method):
-    """Visitor methods of the hand-written reader of `path`: in the type's module, not inside a derive-generated block;
-    those naming the type are preferred (a module with several hand-written readers)"""
-    mod = path.split('::')[0] + '::'
-    c = [k for k in L.roots if k.endswith('::' + method) and 'serde::de::Visitor' in k and k.lstrip('<').startswith(mod) and '::_::<impl' not in k]
-    named = [k for k in c if ('for %s<' % path) in k]
-    return named or c
+    """Visitor methods of the hand-written reader of `path`, located by following the types named by the reader itself"""
+    return reader_chain(L, path).get(method, [])
 
 
 def check_field_visitor(run, L, path, fields, root_key, strict):
@@ -369,7 +513,7 @@ def check_visit_map(run, L, name_to_variant, inv_fields, path='transform::Decomp
 def run(tier):
     run = Run(PROP, tier, 'other')
     bound = 6 if tier == 'thorough' else 5
-    S, inv, meta = facts.extract(PROP, 'pub fn c20__anchor<S: BaseNum>(a: Vector1<S>) -> S { a.x }', features=('serde',), inventory=True, local='serde_de::,serde_ser::,::serialize,::deserialize', loop_bound=bound)
+    S, inv, meta = facts.extract(PROP, 'pub fn c20__anchor<S: BaseNum>(a: Vector1<S>) -> S { a.x }', features=('serde',), inventory=True, local='trait:serde', loop_bound=bound)
     L = Summaries(os.path.join(meta['cdir'], 'local.json'))
     # (a) Cargo.toml
     toml = open(os.path.join(facts.REPO, 'Cargo.toml')).read()
@@ -382,7 +526,7 @@ def run(tier):
     types['transform::Decomposed'] = DEC_FIELDS
     how = {}
     for path, fields in types.items():
-        a = adts.get(path)
+        a = resolve_adt(adts, path)
         dec = path == 'transform::Decomposed'
         key = '%s:derive:%s' % (PROP, path) if not dec else '%s:Decomposed' % PROP
         if not run.ob(key + ':present', a is not None, rule='K8', expected='type exists', found='missing'):
@@ -390,8 +534,8 @@ def run(tier):
         if dec:
             dfields = [f['name'] for f in a['fields']]
             run.ob('%s:Decomposed:idents' % PROP, dfields == DEC_FIELDS, rule='K8', expected=DEC_FIELDS, found=dfields)
-        ser = [i for i in impls if i['trait'].endswith('ser::Serialize') and i['self'].startswith(path + '<')]
-        de = [i for i in impls if i['trait'].endswith('de::Deserialize') and i['self'].startswith(path + '<')]
+        ser = [i for i in impls if i['trait'].endswith('ser::Serialize') and i['self'].startswith(ap(path) + '<')]
+        de = [i for i in impls if i['trait'].endswith('de::Deserialize') and i['self'].startswith(ap(path) + '<')]
         # whether an impl is derived or written by hand is not part of the property: both are read off their bodies.
         run.ob(key + ':impls', len(ser) == 1 and len(de) == 1, rule='K8', expected='one Serialize and one Deserialize impl',
                found='ser %d de %d' % (len(ser), len(de)), where=a['span'])
@@ -405,7 +549,7 @@ def run(tier):
         if de[0]['derived']:
             if path not in NEWTYPES:
                 # the derived field identifier: "name_i" -> __field_i in declaration order, other keys ignored
-                ks = find_root(L, lambda k: ('for %s<' % path) in k and '__FieldVisitor' in k and k.endswith('::visit_str'))
+                ks = find_root(L, lambda k: ('for %s<' % ap(path)) in k and '__FieldVisitor' in k and k.endswith('::visit_str'))
                 if run.ob('%s:de:%s:visit_str:present' % (PROP, path), len(ks) == 1, rule='K8 reader table', expected='derived field-name visitor', found=ks):
                     # (Decomposed must reject unknown keys: a derived reader does so only with deny_unknown_fields)
                     n2v = check_field_visitor(run, L, path, fields, ks[0], strict=dec)
@@ -414,15 +558,25 @@ def run(tier):
             check_newtype_reader(run, L, path)
         else:
             # hand-written struct reader: strict field names, then every key sequence of visit_map
-            ks = reader_roots(L, path, 'visit_str')
+            chain = reader_chain(L, path)
+            ks = chain.get('visit_str', [])
             tag = 'Decomposed' if dec else path
-            if run.ob('%s:de:%s:visit_str:present' % (PROP, tag), len(ks) == 1, rule='K8 reader table', expected='field-name visitor', found=ks):
+            vm = chain.get('visit_map', [])
+            if vm and all('::_::<impl' in k for k in vm):
+                # the hand-written impl delegates to the DERIVED reader of a private proxy struct (delegation checked with the header):
+                # that reader is checked like every derived one - its field-name visitor, and the census of its generated code
+                proxy = re.search(r"impl serde::Deserialize<'\w+> for ([\w:]+)<", vm[0])
+                if run.ob('%s:de:%s:visit_str:present' % (PROP, tag), len(ks) == 1 and proxy is not None, rule='K8 reader table', expected='derived field-name visitor of the proxy', found=ks):
+                    n2v = check_field_visitor(run, L, path, fields, ks[0], strict=dec)
+                    run.ob('%s:de:%s:visit_str:order' % (PROP, tag), [n2v.get(f) for f in fields] == list(range(len(fields))), rule='K8 reader table', expected='field i is identified by the i-th declared name', found=n2v, where=L.roots[ks[0]].get('span'))
+                    check_derive_census(run, L, proxy.group(1))
+            elif run.ob('%s:de:%s:visit_str:present' % (PROP, tag), len(ks) == 1, rule='K8 reader table', expected='field-name visitor', found=ks):
                 n2v = check_field_visitor(run, L, path, fields, ks[0], strict=True)
                 if len(n2v) == len(fields):
                     check_visit_map(run, L, n2v, [f['name'] for f in a['fields']], path)
     run.notes['impl_kinds'] = how
     dec = adts.get('transform::Decomposed')
-    run.floor('derived_types', len([p for p in DERIVED if p in adts]), 20)
+    run.floor('derived_types', len([p for p in DERIVED if ap(p) in adts]), 20)
     run.floor('roots', len(run.roots), 40)
     return run.finish(
         explanation='With the serde feature: (a) Cargo.toml declares serde optional with its derive feature. (b) For each of the 21 serializable types, whether its impls are derived or written by hand: one Serialize and one Deserialize impl exist; the all-Ok path of the serialize body is serialize_struct(Name, n), serialize_field(ident_i, &self.ident_i) in declaration order, end (Rad/Deg: serialize_newtype_struct of .0, a bare number); the deserialize body passes the same name and FIELDS table. A derived reader is checked through its generated field visitor (name_i -> field i, other keys ignored) and a census of everything the generated code calls or inlines (only serde traits and its own generated items: the effect of with / deserialize_with / default attributes, which are not visible after expansion). A hand-written reader is analysed in full: visit_str maps each name to its own variant and every other key to Err; visit_map is unrolled up to a bound and every key sequence (all permutations, every omission, duplicates, failures of next_key/next_value) is followed: failing calls propagate, a missing field yields Err(missing_field(its name)) - never a default -, a complete set yields Ok with each field taken from the value read right after its own key, and the key name equals the ident of the field it fills; a hand-written newtype reader wraps the value read by the scalar\'s own Deserialize and propagates its error. (c) Decomposed must reject unknown keys whichever way its reader is implemented.',
